@@ -278,6 +278,25 @@ pub fn run_layout(opts: &Opts, rep: &mut Report) {
         layout_type!(rep, opts, idx, rng, "boxed", true, |i: u32| Box::new(i));
         layout_type!(rep, opts, idx, rng, "align16-owned", true, |i: u32| A16Owned(format!("owned-{i}")));
         layout_type!(rep, opts, idx, rng, "tuple-u8-string", true, |i: u32| (i as u8, format!("{i}")));
+        // large vectors: the index -> (bucket, entry) arithmetic far beyond the first buckets
+        if !cfg!(miri) && idx % 6 == 5 {
+            let n = *rng.pick(&[40_000u32, 70_000, 131_072 - 32, 300_000, 1_100_000]) + rng.below(3) as u32;
+            let cap = *rng.pick(&[0u32, 1, 1000, 70_000]);
+            let before = live_allocations();
+            let o = layout_case(&|i: u32| i ^ 0x5a5a_0000, 1, cap, n, *rng.pick(&[1u32, 10_000, 65_536]), true);
+            let after = live_allocations();
+            rep.count("layout.large-vectors");
+            rep.max("layout.max-items-in-one-vector", n as u64);
+            rep.add("layout.items", o.items);
+            rep.add("layout.references-checked", o.refs);
+            let detail = |msg: String| jobj! {"problem" => msg, "case_id" => format!("{}:{}:{}", opts.seed, opts.shard, idx), "item_type" => "u32 (large vector)", "capacity" => cap, "items" => n};
+            if o.problems.is_empty() && after != before {
+                rep.violation("C11", "allocation-outlives-the-vector", "large vector".into(), detail(format!("{} allocations still alive", after - before)));
+            }
+            for (prop, kind, msg) in o.problems.into_iter().take(3) {
+                rep.violation(prop, kind, "type=u32 large".into(), detail(msg));
+            }
+        }
         rep.count("rounds");
     }
     rep.add("layout.allocations-counted", total_allocations());
